@@ -1,6 +1,7 @@
 package main
 
 import (
+	"time"
 	"runtime/debug"
 	"runtime/pprof"
 	"sort"
@@ -28,6 +29,13 @@ func main() {
 	if pf := os.Getenv("GOVC_PROF"); pf != "" {
 		f, _ := os.Create(pf)
 		pprof.StartCPUProfile(f)
+		if secs := envInt("GOVC_PROF_SECS", 0); secs > 0 {
+			go func() {
+				time.Sleep(time.Duration(secs) * time.Second)
+				pprof.StopCPUProfile()
+				os.Exit(3)
+			}()
+		}
 		defer pprof.StopCPUProfile()
 	}
 	debug.SetGCPercent(800)
